@@ -30,6 +30,10 @@ def operand_kinds():
         "rem": p.Remainder(x, y), "pow": p.Power(x, 2), "call": p.Call(p.Variable("f"), (x,)),
         "sub": p.Subscript(p.Variable("t"), 0), "lshift": p.LeftShift(z, 1),
         "bnot": p.BitwiseNot(z), "if": p.If(p.Comparison(x, "<", y), x, y),
+        # the same node classes with a CONSTANT operand (shortcuts that look at an operand's value)
+        "quotc": p.Quotient(7, x), "floordivc": p.FloorDiv(7, x), "remc": p.Remainder(7, x),
+        "floordivd": p.FloorDiv(x, 2), "remd": p.Remainder(x, 3), "powc": p.Power(2, x),
+        "negfloordivc": p.FloorDiv(-7, y), "sumc": p.Sum((x, 3)), "prodc": p.Product((3, x)),
         "zero": 0, "one": 1, "negone": -1, "two": 2, "fzero": 0.0, "fone": 1.0, "fnegone": -1.0,
         "fhalf": 2.5, "true": True, "false": False,
     }
